@@ -359,6 +359,8 @@ Definition found_in (expected : str) (gs : list seg) : bool :=
   existsb (fun s => match s with Sep _ => false | Par p => ps_found (para_scan expected p) end) gs.
 Definition has_used_para (expected : str) (gs : list seg) : bool :=
   existsb (fun s => match s with Sep _ => false | Par p => para_is_used expected p end) gs.
+Definition has_par (gs : list seg) : bool :=
+  existsb (fun s => match s with Sep _ => false | Par _ => true end) gs.
 (* insert lines below the last line of the first paragraph that satisfies sel *)
 Fixpoint insert_below (sel : list str -> bool) (ins : list str) (gs : list seg) : option (list seg) :=
   match gs with
@@ -377,6 +379,7 @@ Definition used_by (name : str) (ls : list str) : option (list str) :=
   if (length ls <? 3)%nat then Some ls else
   let expected := used_by_prefix ++ name in
   let gs := group (sep_flags true ls) in
+  if negb (has_par gs) then Some ls else                 (* len(paras) == 0: nothing to do *)
   if found_in expected gs then
     (if has_used_para expected gs then Some ls
      else match insert_below (fun _ => true) [] gs with Some _ => Some ls | None => None end)
